@@ -78,6 +78,8 @@ func (m *scriptedMeter) set(rating float64, ready bool) {
 }
 
 // c02Target abstracts RoundRobin and Rebalancer(RoundRobin).
+var c02Backoff = time.Second
+
 type c02Target struct {
 	name   string
 	rr     *roundrobin.RoundRobin
@@ -124,7 +126,7 @@ func newC02Target(kind string, next http.Handler, meterMode string, r *rand.Rand
 	}
 	t.rr = rr
 	if kind == "rb" {
-		ropts := []roundrobin.RebalancerOption{roundrobin.RebalancerBackoff(time.Second)}
+		ropts := []roundrobin.RebalancerOption{roundrobin.RebalancerBackoff(c02Backoff)}
 		if meterMode != "default" {
 			ropts = append(ropts, roundrobin.RebalancerMeter(func() (roundrobin.Meter, error) {
 				m := &scriptedMeter{}
@@ -191,7 +193,11 @@ func c02Script(c *Ctx) {
 		model := map[string]int{}
 		var script []string
 		removedPresent, requestsAfterRemoval := false, 0
+		keyOverride := ""
 		fail := func(key, msg string) {
+			if keyOverride != "" {
+				key = keyOverride
+			}
 			c.Violation(key, sfmt("%s/%s: %s (after script %v)", kind, meterMode, msg, script), map[string]any{"target": kind, "meters": meterMode, "script": script, "model": model})
 		}
 		check := func(afterAdmin bool) bool {
@@ -330,6 +336,34 @@ func c02Script(c *Ctx) {
 				}
 				model[k] = w
 				changed = true
+			case op < 5 && r.IntN(3) == 0: // an upsert whose option is rejected must fail and change nothing
+				_, existed := model[k]
+				w := r.IntN(7)
+				var err error
+				if existed || r.IntN(2) == 0 {
+					script = append(script, sfmt("upsert(%s,w=%d,w=-1)", u.String(), w))
+					err = t.upsert(u, roundrobin.Weight(w), roundrobin.Weight(-1))
+				} else {
+					script = append(script, sfmt("upsert(%s,w=-1)", u.String()))
+					err = t.upsert(u, roundrobin.Weight(-1))
+				}
+				c.Count("rejected_upserts_checked", 1)
+				if err == nil {
+					fail("upsert/invalid-accepted", "UpsertServer with a negative weight returned nil")
+					return
+				}
+				keyOverride = "upsert/rejected-call-changed-pool"
+				okc := check(false) // membership and (outside scripted mode) weights must be untouched
+				keyOverride = ""
+				if !okc {
+					return
+				}
+				// the failed call may have altered state in ways only traffic shows
+				script = append(script, "rotation")
+				if !rotation() {
+					return
+				}
+				continue
 			case op < 5: // upsert without options
 				script = append(script, sfmt("upsert(%s)", u.String()))
 				if err := t.upsert(u); err != nil {
@@ -525,7 +559,29 @@ func c02Conc(c *Ctx) {
 		h := http.HandlerFunc(func(w http.ResponseWriter, req *http.Request) {
 			req.Header.Set("X-Seen", urlKey(req.URL))
 		})
-		t := newC02Target(kind, h, "never", r, nil)
+		// rebalancer: scripted, ready meters with changing ratings and a 1ms back-off (real clock), so weight
+		// adjustments (which re-upsert every server record) race with the administration calls
+		mode := "never"
+		if kind == "rb" && i%4 != 3 {
+			mode = "scripted"
+		}
+		c02Backoff = time.Millisecond
+		t := newC02Target(kind, h, mode, r, nil)
+		c02Backoff = time.Second
+		shuffleSeed := r.Uint64()
+		var shuffleStop atomic.Bool
+		var shuffleWG sync.WaitGroup
+		if mode == "scripted" {
+			shuffleWG.Add(1)
+			go func() {
+				defer shuffleWG.Done()
+				sr := rand.New(rand.NewPCG(shuffleSeed, 7))
+				for !shuffleStop.Load() {
+					t.shuffleMeters(sr, "scripted")
+					time.Sleep(200 * time.Microsecond)
+				}
+			}()
+		}
 		// intervals during which a key may have been a positive-weight member
 		type iv struct{ from, to int64 }
 		ivs := map[string][]iv{}
@@ -604,7 +660,23 @@ func c02Conc(c *Ctx) {
 		}
 		stop.Store(true)
 		wg.Wait()
+		shuffleStop.Store(true)
+		shuffleWG.Wait()
 		end := clk.Add(1)
+		// quiescent point: membership must be exactly what the administration calls defined
+		{
+			got := keysOf(t.servers())
+			var want []string
+			for k := range model {
+				want = append(want, k)
+			}
+			sort.Strings(want)
+			if strings.Join(got, ",") != strings.Join(want, ",") {
+				c.Violation("conc/members-after-quiescence", sfmt("%s/%s: after requests racing with administration, Servers() = %v but the calls made define %v", kind, mode, got, want), nil)
+				return
+			}
+			c.Count("conc_quiescent_membership_checks", 1)
+		}
 		for k, from := range open {
 			ivs[k] = append(ivs[k], iv{from, end})
 		}
